@@ -43,6 +43,7 @@ def clause_tags(clause):
     return set()
 
 
+STRATA = {}
 QUERY_PROPS = {"C01", "C02", "C03", "C06", "C07", "C08"}
 LIGHT = ["compress", "expand", "standardize_prefix", "parse_uri"]
 METHODS = {
@@ -152,11 +153,12 @@ def variants_new(ops):
 
 def oplists_from_hists(pid, hists, cmaps, rng, limit):
     hs = world.maximal(hists)
-    rng.shuffle(hs)
     if pid in QUERY_PROPS:
-        # query properties need live converters: prefer behaviours whose last operation succeeded
-        hs.sort(key=lambda hl: 0 if (hl[1] and hl[1][0] == "ok") else 1)
-    hs = [h for h, _ in hs[:limit]]
+        # query properties need live converters: only behaviours whose last operation succeeded
+        ok = [hl for hl in hs if hl[1] and hl[1][0] == "ok"]
+        hs = ok or hs
+    hs, n_classes, _ = world.stratified(hs, rng, limit)
+    STRATA[pid] = {"signature_classes": n_classes, "behaviours_selected": len(hs)}
     out = []
     for k, h in enumerate(hs):
         cmap = world.CONCRETE[cmaps[k % len(cmaps)]]
@@ -337,8 +339,9 @@ def random_oplists(pid, rng, n):
                         r = rand_record(rng, delim, upool, ppool)
                         ops.append({"k": "add", "i": "last", "rec": r, "cs": True, "mg": True, "via": rng.choice(["record", "prefix"])})
         elif pid == "C13":
+          for _rep in range(rng.randrange(1, 4)):
             recs, upool, ppool = strict_set(rng, delim, rng.randrange(1, 5))
-            via = rng.choice(["obj", "str", "path"])
+            via = rng.choice(["obj", "str", "path", "str"])
             kind = rng.randrange(6)
             if kind == 0:
                 ops.append({"k": "load", "loader": "prefix_map", "data": [[r["p"], r["u"]] for r in recs], "delim": delim, "via": via})
@@ -368,6 +371,8 @@ def random_oplists(pid, rng, n):
                 for r in recs:
                     for p in (r["p"], *r["ps"]):
                         pairs[p] = r["u"]
+                    if rng.random() < 0.5 and r["p"].swapcase() != r["p"] and r["p"].swapcase() not in pairs:
+                        pairs[r["p"].swapcase()] = r["u"]       # duplicates that differ in letter case only
                 items = list(pairs.items())
                 rng.shuffle(items)
                 ops.append({"k": "upgrade", "data": [[a, b] for a, b in items]})
@@ -480,7 +485,7 @@ def check(pid, tier, seed):
                 "distinct operation lists executed on the implementation (each creates at least one converter and is followed by a probe table)",
         "exhaustive": all(not m["violated"] for m in models),
         "models": models, "trace_events": n_events, "event_kinds": kinds,
-        "behaviours_from_tlc": n_hist, "behaviours_random": len(oplists) - n_hist - n_cex,
+        "behaviours_from_tlc": n_hist, "spec_signature_coverage": STRATA.get(pid), "behaviours_random": len(oplists) - n_hist - n_cex,
         "concretisations": CMAPS[tier], "trace_validation": st,
         "other_clauses_failed": other, "known_findings": [k["id"] for k in known],
         "checker_cmd": "tlc -workers 16 spec/mc/MC_*.tla ; TRACE_FILE=<batch> tlc spec/Trace.tla",
